@@ -168,6 +168,10 @@ class Report:
                 print(f"KNOWN-FINDING: property={self.prop} {f['id']}: {f['what']} (seen {self.known_seen[f['id']]}x)")
         nviol = 0
         replay_paths = []
+        if os.environ.get("VERIF_DUMP_SIGS"):
+            for sig, occs in sorted(self.violations.items()):
+                print(f"SIG {len(occs):6d} {sig}  e.g. " + json.dumps(occs[0]["detail"], default=repr)[:int(os.environ.get("VERIF_DUMP_SIGS"))])
+            self.violations = {}
         for sig, occs in self.violations.items():
             nviol += len(occs)
             d = self._write_replay(sig, occs[0])
